@@ -31,6 +31,11 @@ CHECKS = {
             'Hostile inputs (token-level mutations of all repository samples, token soup, raw UTF-8, 125 adversarial shapes, 2-5 file projects) are run through the real mamba_to_python on an 8 MiB stack under catch_unwind with a logical step budget armed through the counter hook; a worker death, panic, exceeded budget or empty diagnostics list is a violation; every 50th input is replayed on the plain release build and verdict differences are reported; thorough adds a valgrind memcheck slice.',
             'Bounds: <= 4 KiB and <= 150 lines per file, <= 5 files; time bound = 4000 + 40*(tokens+1)^2 counted steps at the instrumented loop heads / recursive entries (a loop in uninstrumented code would surface as a watchdog inconclusive, not as a verdict).',
             'DESIGN.md section 4, C03'),
+    'C01': ('translation_validation',
+            'history-vs-model runtime monitor: programs transpiled by the real pipeline, emitted Python executed by CPython, printed lines and uncaught exception class compared with a reference interpreter; systematic construct x context sweep + seeded random programs, both annotate flags',
+            'Translation validation by execution: 1232 sweep cells (136 construct payloads x up to 9 contexts: top level, function, method, loop, then, else, match arm, handle arm, function-in-loop-in-if) and seeded random typed programs are transpiled with annotate on and off; each emitted module is run and its behaviour compared with the reference semantics; every disagreement is re-run, shrunk structurally and given a construct-tag signature.',
+            'Trusts CPython 3.11 for the behaviour of Python and the reference interpreter in mv/lang.py as the reading of the documented semantics (small, canary-tested); rejected programs are not judged here (C05 owns over-rejection).',
+            'DESIGN.md section 4, C01'),
 }
 
 NOT_YET = 'monitor not built yet in this revision (construction order: DESIGN.md section 9); not claimed rather than claimed weakly'
